@@ -49,6 +49,12 @@ type Both interface {
 	json.Unmarshaler
 }
 
+// Narrow is an interface-typed T whose static method set has one of the six methods only: the
+// values in it (*P, *Q) have all of them.
+type Narrow interface {
+	MarshalText() ([]byte, error)
+}
+
 var shapeNames = [...]string{"V(value marshalers, pointer unmarshalers)", "*P(pointer type)", "OnlyM", "OnlyU", "None", "Both(interface-typed T holding *P or nil)", "*V(pointer to value-receiver type)", "Str(string kind)", "Bytes(slice kind)", "Map(map kind)", "Num(integer kind)", "Byte(uint8 kind)", "Doc(struct with an interface-typed field holding a map)", "*L(String memoises into the value)", "TextOnly", "BinOnly", "JSONOnly", "*Map(pointer to a map kind)", "P(value type whose methods all have pointer receivers)"}
 var helperNames = [...]string{"MarshalText", "UnmarshalText", "MarshalBinary", "UnmarshalBinary", "MarshalJSON", "UnmarshalJSON"}
 
@@ -58,6 +64,8 @@ type listSpec struct {
 	dir        int
 	shape      int
 	goexit     bool
+	prelude    int  // 1..4: another helper (other encoding; 3, 4: other direction too) runs on the same T first, with no reset in between
+	narrow     bool // interface shape: T is Narrow, an interface type that names only one of the six methods
 	typeHelper int // 0 none, 1 recording (symmetric), 2 recording with an asymmetric AssertEqual (zero fields of expected are not compared), 3 recording and prototype-cloning (New carries V.Mode over from its argument)
 	cases      []caseSpec
 }
@@ -557,7 +565,24 @@ func runEnc[T any](l *listRun, ls listSpec, mk func(i int, c caseSpec) T) {
 // execList runs one helper invocation and returns the recording; escaped is the panic that
 // left the helper, if any.
 func execList(ls listSpec, keepMsgs bool) (l *listRun, escaped interface{}) {
-	resetPackages() // every helper invocation starts from package test's initial state
+	resetPackages() // every judged helper invocation starts from package test's initial state ...
+	if ls.prelude > 0 {
+		// ... or from what one earlier invocation of another helper on the same T has left behind
+		// (caches of reflection results): a list of one satisfied case, its recording thrown away
+		pl := ls
+		pl.prelude = 0
+		pl.enc = (ls.enc + 1 + (ls.prelude-1)%2) % 3
+		if ls.prelude > 2 {
+			pl.dir = 1 - ls.dir
+		}
+		pl.cases = []caseSpec{{payload: "x"}}
+		normalise(&pl)
+		execNoReset(pl, false)
+	}
+	return execNoReset(ls, keepMsgs)
+}
+
+func execNoReset(ls listSpec, keepMsgs bool) (l *listRun, escaped interface{}) {
 	l = &listRun{specs: ls.cases, enc: ls.enc, jsonDoc: ls.enc == kJSON && ls.dir == dirMarshal, lastSeen: -1, failures: make([]int, len(ls.cases)), goexit: ls.goexit, keepMsgs: keepMsgs}
 	cur = l
 	defer func() { cur = nil }()
@@ -627,6 +652,18 @@ func execList(ls listSpec, keepMsgs bool) (l *listRun, escaped interface{}) {
 				return &V{Case: i + 1, Payload: c.payload}
 			})
 		case shIface:
+			if ls.narrow {
+				runEnc(l, ls, func(i int, c caseSpec) Narrow {
+					if c.nilIface {
+						return nil
+					}
+					if c.other {
+						return &Q{i + 1, c.payload, true}
+					}
+					return &P{i + 1, c.payload}
+				})
+				break
+			}
 			runEnc(l, ls, func(i int, c caseSpec) Both {
 				if c.nilIface {
 					return nil
@@ -853,6 +890,17 @@ func firstNil(ls listSpec) bool { return len(ls.cases)%2 == 1 }
 
 func describe(ls listSpec) []string {
 	out := []string{fmt.Sprintf("%s on %s, %d cases, FailNow-exits=%v, TypeHelper=%d", ls.helper(), shapeNames[ls.shape], len(ls.cases), ls.goexit, ls.typeHelper)}
+	if ls.narrow {
+		out = append(out, "  T is Narrow: an interface type naming MarshalText only (the values have all six methods)")
+	}
+	if ls.prelude > 0 {
+		pl := ls
+		pl.enc = (ls.enc + 1 + (ls.prelude-1)%2) % 3
+		if ls.prelude > 2 {
+			pl.dir = 1 - ls.dir
+		}
+		out = append(out, fmt.Sprintf("  preceded, with no reset of package test in between, by %s on the same T with one satisfied case", pl.helper()))
+	}
 	for i, c := range ls.cases {
 		out = append(out, fmt.Sprintf("  case %d: %s payload=%q", i, c.sig(), c.payload))
 	}
